@@ -225,7 +225,9 @@ def run_case(case):
             res["evals"] += 1
             res["counters"]["solver_sensed"] += 1
             a, bb = stats
-            sane = all(isinstance(s_.get("iter_count"), int) and 0 <= s_.get("iter_count") <= 10000 for s_ in (a, bb))
+            sane = all(isinstance(s_.get("iter_count"), int) and 0 <= s_.get("iter_count") <= 10000 and
+                       s_.get("return_status") in ("Maximum_Iterations_Exceeded", "Solve_Succeeded",
+                                                   "Solved_To_Acceptable_Level") for s_ in (a, bb))
             # ipopt leaves iter_count uninitialised when it aborts before iterating (e.g. too few degrees of freedom)
             if a.get("return_status") != bb.get("return_status") or (sane and (
                     a.get("iter_count") != bb.get("iter_count") or
